@@ -142,11 +142,19 @@ Proof.
   rewrite Htm in Jh.
   assert (Ej : j = n_id b) by (eapply (Election.inv_election _ _ El'); eauto).
   destruct (g_rec_node _ _ _ _ GI' _ _ _ HG'l Jnz) as [x [Gx [Le Eq]]].
-  rewrite Ej, Gb in Gx. inversion Gx. subst x.
+  simpl in Gx, Gb. rewrite Ej, Gb in Gx. inversion Gx. subst x.
   destruct (Eq ltac:(congruence)) as [_ Hpf]. specialize (Hpf Hrole).
   assert (Hlen_l : (N.to_nat idx <= length l)%nat) by (apply nth_len in A1; lia).
   split; [apply nth_len in X1; lia|].
   rewrite Pf. apply pfx_firstn; auto.
+Qed.
+
+Lemma lrun_length n bm be σ0 sched σ :
+  run sys sys_event (lstep n bm be) σ0 sched σ -> length (sy_nodes σ0) = n -> length (sy_nodes σ) = n.
+Proof.
+  intros Hrun. induction Hrun as [σ1 | σ1 e1 σ2 es σ3 Hs1 Hr IH]; intro Hn; auto.
+  apply IH. destruct Hs1 as [Hs1 _]. destruct Hs1. simpl in *.
+  rewrite <- (map_length n_id (put_node s' (sy_nodes σ))), put_node_ids, map_length. exact Hn.
 Qed.
 
 Theorem ack_matches_leader_log_sys :
@@ -164,11 +172,7 @@ Theorem ack_matches_leader_log_sys :
 Proof.
   intros bm be σ0 σ σ' sched e Hinit Hrun Hst.
   destruct (lrun_inv bm be σ0 sched σ _ (ginv_init bm be σ0 Hinit) Hrun) as [G [GI _]].
-  assert (Hlen : length (sy_nodes σ) = length (sy_nodes σ0)).
-  { clear Hst GI. remember (length (sy_nodes σ0)) as n eqn:Hn. symmetry in Hn. revert Hn.
-    induction Hrun as [σ1 | σ1 e1 σ2 es σ3 Hs1 Hr IH]; intro Hn; auto.
-    apply IH. destruct Hs1 as [Hs1 _]. destruct Hs1. simpl.
-    rewrite <- (map_length n_id), put_node_ids, map_length. exact Hn. }
+  assert (Hlen : length (sy_nodes σ) = length (sy_nodes σ0)) by (eapply lrun_length; eauto).
   intros. eapply (ack_step bm be _ σ G e σ' Hlen GI Hst); eauto.
 Qed.
 
